@@ -18,7 +18,8 @@ import (
 func newSim(cfg Cfg, seed int64) *Sim {
 	s := &Sim{cfg: cfg, rng: rand.New(rand.NewSource(seed)), parked: map[string]string{}, gates: map[string]chan struct{}{},
 		roles: map[uint64]string{}, entIDs: map[any]int{}, needProceed: map[string]bool{}, removed: map[string]int{},
-		firstTx: map[string][]byte{}, want: map[string][]byte{}, gated: true, firing: map[string]bool{}}
+		firstTx: map[string][]byte{}, want: map[string][]byte{}, gated: true, firing: map[string]bool{},
+		entQ: map[int][]int{}, lastWoken: map[string]int{}, callerEnt: map[string]int{}}
 	n := len(cfg.Xid)
 	s.started, s.retd, s.ctxDone, s.ncalls = make([]bool, n), make([]bool, n), make([]bool, n), make([]int, n)
 	return s
@@ -205,7 +206,11 @@ func (s *Sim) randomRun(ndgram int, urgent bool, wantClose, wantCtx bool) {
 			s.ctxCancel(c.arg)
 		case c.kind == "inject":
 			injected++
-			s.inject(xids[s.rng.Intn(len(xids))], kinds[s.rng.Intn(len(kinds))])
+			if len(s.dgrams) > 0 && s.rng.Intn(5) == 0 {
+				s.injectDup(1 + s.rng.Intn(len(s.dgrams))) // the same bytes once more
+			} else {
+				s.inject(xids[s.rng.Intn(len(xids))], kinds[s.rng.Intn(len(kinds))])
+			}
 		case c.kind == "close":
 			s.closeStart()
 		case c.kind == "tick":
